@@ -29,6 +29,36 @@ int sock_receiveBytes(struct sock_m *s, void *bufv, int n, int flags)
   g_cur += (unsigned long)r;
   return r;
 }
+/* ---- FIXReader::read: the string it fills, the tokeniser, the session ---- */
+struct strbuf_m { char *data; unsigned long size; };
+char g_tobuf[16400];
+struct strbuf_m *sb_assign(struct strbuf_m *s, const char *p, unsigned long n)
+{ __CPROVER_assert(n <= 16399, "model: the frame string holds at most 16399 bytes"); __CPROVER_assert(__CPROVER_r_ok(p, n), "C15.read.assign_reads_inside_the_message_buffer"); s->data = g_tobuf; s->size = n; if (n) g_tobuf[0] = p[0]; return s; }
+struct strbuf_m *sb_append(struct strbuf_m *s, const char *p, unsigned long n)
+{ __CPROVER_assert(s->size + n <= 16399, "model: the frame string holds at most 16399 bytes"); __CPROVER_assert(__CPROVER_r_ok(p, n), "C15.read.append_reads_inside_the_message_buffer"); s->size += n; return s; }
+const char *sb_data(const struct strbuf_m *s) { return s->data; }
+unsigned long sb_size(const struct strbuf_m *s) { return s->size; }
+unsigned long g_read_cur0; int g_tok_calls; unsigned g_tok_mlen; _Bool g_version_matches;
+unsigned tok_extract(const char *from, unsigned sz, char *tag, char *val)
+{
+  /* tokeniser geometry: T bytes before the first '=', V bytes up to the separator; it writes T+1 and V+1 bytes (K-tok: it takes no capacities) */
+  unsigned T = nondet_uint(), V = nondet_uint(); _Bool ok = nondet_bool();
+  __CPROVER_assume(T <= sz && V <= sz && (unsigned long)T + V + 2 <= (unsigned long)sz + 2);
+  __CPROVER_assert((unsigned long)T + 1 <= __CPROVER_OBJECT_SIZE(tag) - __CPROVER_POINTER_OFFSET(tag), "C15.read.pre.tag_buffer_holds_the_first_token_s_tag");
+  __CPROVER_assert(!ok || (unsigned long)V + 1 <= __CPROVER_OBJECT_SIZE(val) - __CPROVER_POINTER_OFFSET(val), "C15.read.pre.value_buffer_holds_the_first_token_s_value");
+  tag[0] = g_tok_calls == 0 && sz ? from[0] : nondet_char(); val[0] = nondet_char(); g_tok_calls++;
+  if (!ok) return 0;
+  __CPROVER_assume((unsigned long)T + V + 2 <= sz);
+  return T + V + 2;
+}
+int str_compare_cstr(const struct strbuf_m *s, const char *v) { return g_version_matches ? 0 : 1; }
+int str_compare_prefix(const struct strbuf_m *s, unsigned long pos, unsigned long len, const char *v, unsigned long n) { return g_version_matches ? 0 : (nondet_bool() ? 0 : 1); }   /* compare of a prefix only: a different value with the same prefix compares equal */
+unsigned atoi_u(const char *p, char term) { return g_tok_mlen; }
+struct ctx_m { struct strbuf_m _beginStr; }; struct ctx_m g_ctx;
+const struct ctx_m *ses_get_ctx(const void *s) { return &g_ctx; }
+int g_update_received;
+void ses_update_received(void *s) { g_update_received++; }
+int c_isdigit(int c) { return c >= '0' && c <= '9'; }
 '''
 SR_CONTRACT = [
     ('requires', 'C15.sockRead.pre.size', 'sz >= 1 && sz <= 8192'),
@@ -45,6 +75,21 @@ SR_LOOP = dict(
     invariants=[('inv.progress', '(unsigned long)rddone + remaining == sz && remaining <= sz && g_cur == g_cur0 + rddone'),
                 ('inv.content', '!(g_cur0 <= g_wpos && g_wpos < g_cur0 + rddone) || where[g_wpos - g_cur0] == g_wval')])
 POST = r'''
+/* FIXReader::read against sockRead's contract: frame arithmetic, buffer safety, error outcomes */
+void h_read(void)
+{
+  struct FIX8_FIXReader rd; struct sock_m sk; rd.__base._sock = &sk;
+  rd._bg_sz = nondet_ulong(); __CPROVER_assume(rd._bg_sz >= 8 && rd._bg_sz <= 40);           /* 2 + |BeginString| + 1 + 3 */
+  g_wpos = nondet_ulong(); g_wval = nondet_char(); g_cur = nondet_ulong(); __CPROVER_assume(g_cur <= 1000000000ul);
+  g_tok_calls = 0; g_tok_mlen = nondet_uint(); g_version_matches = nondet_bool(); g_update_received = 0; __exc = 0;
+  unsigned long cur0 = g_cur; struct strbuf_m to; to.data = g_tobuf; to.size = 0;
+  _Bool r = fixreader_read(&rd, &to);
+  __CPROVER_assert(!(r && !__exc) || (g_cur - cur0 == to.size && g_update_received == 1), "C15.read.a_frame_is_exactly_the_stream_bytes_consumed_for_it");
+  __CPROVER_assert(!(r && !__exc) || (g_version_matches && g_tok_mlen >= 1 && g_tok_mlen <= 8192 - rd._bg_sz - 7 && to.size >= rd._bg_sz + 1 + g_tok_mlen + 7), "C15.read.accepted_only_with_our_beginstring_and_a_plausible_bodylength");
+  __CPROVER_assert(r && !__exc || g_update_received == 0, "C15.read.nothing_is_marked_received_on_failure");
+  __CPROVER_assert(!__exc || __exc == EXC_FIX8_IllegalMessage || __exc == EXC_FIX8_InvalidVersion || __exc == EXC_FIX8_InvalidBodyLength || __exc == EXC_FIX8_PeerResetConnection, "C15.read.raises_only_framing_errors");
+  VACUITY_PROBE();
+}
 void h_sockRead(void)
 {
   struct FIX8_FIXReader rd; struct sock_m sk; rd.__base._sock = &sk;
@@ -57,21 +102,34 @@ void h_sockRead(void)
 '''
 UNIT = dict(
     name='k_read', tu='tu/rt_connection.cpp', no_follow=True,
-    pre_structs='struct sock_m { int dummy; };\n',
+    pre_structs='struct sock_m { int dummy; };\nstruct ses_m { int dummy; };\n',
     emit=dict(
         exceptions=True,
         bases={'FIX8::FIXReader': 'FIX8::AsyncSocket<std::basic_string<char>>'},
-        type_map=[(r'Poco::Net::StreamSocket', 'struct sock_m')],
+        type_map=[(r'Poco::Net::StreamSocket', 'struct sock_m'), (r'FIX8::Session', 'struct ses_m'), (r'FIX8::F8MetaCntx', 'struct ctx_m'), (r'(std::basic_string<char>|std::string|FIX8::f8String)', 'struct strbuf_m')],
+        pod=[r'std::basic_string<char>'],
+        may_throw={'fixreader_sockRead': True},
+        constants={'default_field_separator': '((char)1)', 'MAX_MSGTYPE_FIELD_LEN': '32', '_chksum_sz': '7', '_max_msg_len': '8192', 'FIX8_MAX_FLD_LENGTH': '2048'},
         lazy_structs=[r'FIX8::FIXReader', r'FIX8::AsyncSocket<.*>'],
-        default_args={'sock_receiveBytes': {2: '0'}},
-        calls={'Poco::Net::StreamSocket::receiveBytes': dict(c='sock_receiveBytes', sig='int (void *, int, int)'), '__errno_location': 'errno_location'}),
+        default_args={'sock_receiveBytes': {2: '0'}, 'atoi_u': {1: '0'}},
+        calls={'Poco::Net::StreamSocket::receiveBytes': dict(c='sock_receiveBytes', sig='int (void *, int, int)'), '__errno_location': 'errno_location',
+               'FIX8::FIXReader::sockRead': 'fixreader_sockRead', 'isdigit': 'c_isdigit', 'extract_element': 'tok_extract', 'fast_atoi': 'atoi_u',
+               'FIX8::Session::get_ctx': dict(c='ses_get_ctx', sig='const FIX8::F8MetaCntx &() const'), 'FIX8::Session::update_received': 'ses_update_received',
+               'std::basic_string<char>::compare': lambda em, n, args: 'str_compare_cstr' if len(args) == 1 else 'str_compare_prefix', 'std::basic_string<char>::assign': 'sb_assign', 'std::basic_string<char>::append': 'sb_append',
+               'std::basic_string<char>::data': 'sb_data', 'std::basic_string<char>::size': 'sb_size'}),
     prelude=PRELUDE,
     functions=[
         dict(q='FIX8::FIXReader::sockRead', sig=None, cname='fixreader_sockRead', contract=SR_CONTRACT, loops={0: SR_LOOP},
              ghost={'entry': '  unsigned long g_cur0 = g_cur; /* ghost: stream position at entry */'}),
+        dict(q='FIX8::FIXReader::read', sig=None, cname='fixreader_read',
+             loops={0: dict(assigns='bt, offs, __CPROVER_object_whole(msg_buf), g_cur, g_errno, __exc',
+                            invariants=[('inv.frame', 'offs >= self->_bg_sz && offs < 8192ul && offs < self->_bg_sz + 10ul && g_cur == g_read_cur0 + offs && __exc == 0')])},
+             ghost={'entry': '  g_read_cur0 = g_cur; /* ghost: stream position when the frame starts */'}),
     ],
     postlude=POST,
     proofs=[
+        dict(name='read', harness='h_read', replace=['fixreader_sockRead'], loop_contracts=True, properties=['C15'], solvers=['cadical', 'z3'], timeout=dict(quick=600, thorough=1800), floor=6, object_bits=10,
+             level='proved-modular'),
         dict(name='sockRead', harness='h_sockRead', enforce=['fixreader_sockRead'], loop_contracts=True, properties=['C15'], solvers=['cadical', 'z3'],
              timeout=dict(quick=600, thorough=1800), floor=6, object_bits=10, auto_chunks=6, level='proved-modular'),
     ],
